@@ -7,13 +7,20 @@
 EXTENDS BaggageCodec, TLC, Json
 
 CONSTANTS HAlpha, HMaxLen, HExtra,     \* headers: all strings over HAlpha up to HMaxLen, plus HExtra
+          HAlpha2, HMaxLen2,           \* ... all strings over the smaller HAlpha2 of lengths HMaxLen+1..HMaxLen2
+          GKeys, GAlpha, GMaxLen, GOdd, GTails,   \* grammar-directed: key "=" value-word property-tail
+          GSmall, GSeps,               \* ... and every pair of the members GSmall joined by a separator of GSeps
           ArgLists,                    \* constructor inputs: set of sequences of member arguments
           Dev                          \* deviations switched on (oracle: {}); see DevParse / DevNew
 
 VARIABLES st, act
 vars == <<st, act>>
 
-Headers == (UNION {[1..n -> HAlpha] : n \in 0..HMaxLen}) \cup HExtra
+Words(alpha, lo, hi) == UNION {[1..n -> alpha] : n \in lo..hi}
+Headers == Words(HAlpha, 0, HMaxLen) \cup Words(HAlpha2, HMaxLen + 1, HMaxLen2)
+           \cup {k \o <<Sym("eq", "=", 1, "")>> \o w \o t : k \in GKeys, w \in Words(GAlpha, 0, GMaxLen) \cup GOdd, t \in GTails}
+           \cup {a \o c \o b : a \in GSmall, b \in GSmall, c \in GSeps}
+           \cup HExtra
 
 (* the code's known deviations from the statement, only used to demonstrate that TLC finds them *)
 DevParse(h) == IF "parse-no-refit" \in Dev THEN ParseW3C(h) ELSE ParseHeader(h)
